@@ -100,6 +100,25 @@ def refs_form(rng, zs):
     return {misc.compact_elements(a): ['ref5']}, dict({z: ['ref5'] for z in a}, **{z: [] for z in b})
 
 
+def refs_wire(refs):
+    if refs is None:
+        return dict(kind='none')
+    if isinstance(refs, str):
+        return dict(kind='one', key=refs)
+    if isinstance(refs, list):
+        return dict(kind='many', keys=refs)
+    if isinstance(refs, dict):
+        return dict(kind='map', pairs=[[k, v] for k, v in refs.items()])
+    return dict(kind='other')
+
+
+def dict_req(before, bs, file_base, name, family, desc, version, rev, refs, today, idx):
+    files_before = {p: json.loads(v) for p, v in before.items() if p.endswith('.json')}
+    return (dict(op='add_basis_from_dict', files=enc(files_before), basis=enc(bs), refs=refs_wire(refs),
+                 req=dict(subdir='sub', file_base=file_base, name=name, family=family, role='orbital', description=desc, version=version,
+                          revision_description=rev, data_source='source', today=today)), idx)
+
+
 def run_sequence(item):
     bse = import_bse()
     from basis_set_exchange import curate, writers, misc
@@ -159,18 +178,21 @@ def run_sequence(item):
                     bad['elements'][z]['ecp_electrons'] = 0
                 expect_fail = True
                 rec['how'] = how
+                out['reqs'].append(dict_req(before, bad, file_base, name, family, 'desc ' + name, version, 'rev ' + version, refs, today, len(out['steps'])))
                 curate.add_basis_from_dict(bad, d, 'sub', file_base, name, family, 'orbital', 'desc ' + name, version, 'rev ' + version, 'source', refs)
             elif kind == 'repeat_version' and bases:
                 file_base, name, family = rng.choice(bases)
                 version = rng.choice(sorted(added[name]))
                 rec.update(name=name, file_base=file_base, version=version)
                 expect_fail = True
+                out['reqs'].append(dict_req(before, comp, file_base, name, family, 'desc ' + name, version, 'rev', refs, today, len(out['steps'])))
                 curate.add_basis_from_dict(comp, d, 'sub', file_base, name, family, 'orbital', 'desc ' + name, version, 'rev', 'source', refs)
             elif kind == 'taken_name' and bases:
                 _, name, family = rng.choice(bases)
                 name = rng.choice([name, name.upper(), name.lower()])
                 rec.update(name=name)
                 expect_fail = True
+                out['reqs'].append(dict_req(before, comp, file_base, name, family, 'desc', version, 'rev', refs, today, len(out['steps'])))
                 curate.add_basis_from_dict(comp, d, 'sub', file_base, name, family, 'orbital', 'desc', version, 'rev', 'source', refs)
             elif kind == 'file':
                 fmt = rng.choice(['gaussian94', 'nwchem', 'turbomole'])
@@ -194,6 +216,7 @@ def run_sequence(item):
             else:
                 kind = 'dict'
                 rec['kind'] = 'dict'
+                out['reqs'].append(dict_req(before, comp, file_base, name, family, 'desc ' + name, version, 'rev ' + version, refs, today, len(out['steps'])))
                 curate.add_basis_from_dict(copy.deepcopy(comp), d, 'sub', file_base, name, family, 'orbital', 'desc ' + name, version, 'rev ' + version, 'source', refs)
             rec['raised'] = None
         except Exception as e:
@@ -317,19 +340,33 @@ def run(ctx):
             if 'drv_error' in a:
                 raise DriverError(a['drv_error'])
             w = dict(sequence_seed=seed, step=rec['step'])
+            opname = 'add_from_components'
+            if 'if_valid' in a:
+                # add_basis_from_dict: the model hands back the dictionary it would validate; the library's own validator gives the verdict
+                opname = 'add_basis_from_dict'
+                from basis_set_exchange import validator
+                if isinstance(a['component'], dict) and 'raise' in a['component'] and '$o' not in a['component']:
+                    a = a['if_valid']          # refused before validation (reference map): both branches are the same
+                else:
+                    try:
+                        validator.validate_data('component', dec(a['component']))
+                        a = a['if_valid']
+                    except Exception:
+                        a = a['if_invalid']
+                R.count('model:add_basis_from_dict')
             m_raise = a['raise']
             i_raise = rec['raised'].split(':')[0] if rec['raised'] else None
             if (m_raise is None) != (i_raise is None):
-                R.disagree('add_from_components', w, 'raise %s' % m_raise, 'raise %s' % i_raise)
+                R.disagree(opname, w, 'raise %s' % m_raise, 'raise %s' % i_raise)
                 continue
             got = dec(a['files'])
             want = rec['after_files']
             if set(got) != set(want):
-                R.disagree('add_from_components', w, sorted(got), sorted(want), note='files in the directory differ')
+                R.disagree(opname, w, sorted(got), sorted(want), note='files in the directory differ')
             else:
                 for p in want:
                     if got[p] != want[p]:
-                        R.disagree('add_from_components', w, p, p, note='content of %s differs' % p)
+                        R.disagree(opname, w, p, p, note='content of %s differs' % p)
                         break
         R.extra['traces_validated_against_model'] = len(reqs)
     return R
